@@ -132,13 +132,13 @@ class _Run:
         n_nodes = 2 + t.weighted([6, 3, 1], "config.nodes")
         seeds = []
         for _ in range(n_nodes):
-            seeds.append(H.pop(t.weighted([6, 4, 2, 1][:len(H)], "config.hashseed")))
+            seeds.append(H.pop(t.weighted([6, 4, 2, 1, 1, 1][:len(H)], "config.hashseed")))
         self.n_ops = t.between(10, 60, "config.ops")
         self.corpus_bias = t.weighted([3, 3, 2], "config.corpus-bias")
-        # a real restart costs one interpreter start (3-5 s): rationed, at most one per run, and only when
-        # a hash seed is left over for the new process
-        restart_allowed = t.chance(1, 48, "config.restart-allowed") and len(H) > 0
-        self.restarts_left = 1 if restart_allowed else 0
+        # real restarts (kill -9, new process, new hash seed) are rationed: allowed in a quarter of the runs,
+        # at most two per run
+        restart_allowed = t.chance(1, 4, "config.restart-allowed")
+        self.restarts_left = (1 + t.draw(2, "config.restarts")) if restart_allowed else 0
         if restart_allowed:
             ctx.fault_configured("restart")
         ctx.fault_configured("drop-node")
@@ -535,7 +535,7 @@ class C11(Check):
     state_measure = ("(value kind, caches touched before export?, transport family, same process / other process "
                      "same seed / other hash seed, hop count) at each import")
     assumptions = [
-        "a node's PYTHONHASHSEED is one of four fixed values chosen by the tape; nodes are real CPython "
+        "a node's PYTHONHASHSEED is one of six fixed values chosen by the tape; nodes are real CPython "
         "processes importing the five packages from VERIF_REPO; between runs a process is reused after dropping "
         "all held values (gc.collect()), so process-global state that Cirq keeps (resolver caches, functools "
         "caches, weakly interned qubits still referenced by such caches) may carry over between runs: nodes "
@@ -557,7 +557,7 @@ class C11(Check):
         "stub": "nothing of Cirq; the 'network' and 'disk' are byte strings held by the coordinator, and node "
                 "restart is process kill + start",
     }
-    tiers = {"quick": {"runs": 2600, "wall": 75}, "thorough": {"runs": 60000, "wall": 1080}}
+    tiers = {"quick": {"runs": 4000, "wall": 80}, "thorough": {"runs": 90000, "wall": 1100}}
     per_run_timeout = 300
     expected_probes = ["pickle-of-hash-cached-value", "restart-between-export-and-import",
                        "namedqubit-in-circuitop-in-frozencircuit", "ref-entry-emitted", "gzip-path",
@@ -566,7 +566,10 @@ class C11(Check):
                        "copy-of-cache-touched-value"]
 
     def setup(self) -> None:
-        """Index the stored corpus of VERIF_REPO (no node is started here: nodes are per process, after fork)."""
+        """Start the zygotes (one pre-imported interpreter per hash seed, shared by all workers; nodes are
+        forked from them per run, after the runner has forked its workers) and index the stored corpus."""
+        from engines import cluster
+        cluster.start_zygotes()     # they import in the background while this process imports Cirq itself
         import cirq
         repoenv.assert_working_tree(cirq)
         from cirq.testing.json import spec_for
